@@ -1,18 +1,27 @@
 # table read by gen_manifest.py:  claim(id, text, note)  /  na(id, reason)
 
 claim("C05",
-      "Retry accounting at the reducer: the attempt counter, first-attempt time, last exception and recovery counts "
-      "travel unchanged with an event into its worker slot (_add_or_enqueue_event), and are kept when interrupted work "
-      "is re-queued (rewind_in_progress); proved for all states and events by discharged obligations.",
-      "Policy side (retry_policy.py) and the failed-branch of _process_step_result_tick are not yet under contract in "
-      "this revision; clock consistency between adapters is not covered.")
+      "Retry accounting on both sides, for all states and events: the attempt counter, first-attempt time, last "
+      "exception / failure time and recovery counts travel unchanged with an event into its worker slot "
+      "(_add_or_enqueue_event; a first-attempt time of 0.0 is a time, fix e9433f3), are kept when interrupted work is "
+      "re-queued (rewind_in_progress) and when a failure is retried (attempts+1, same first-attempt time); the policy "
+      "is consulted with elapsed = now - first attempt and the 1-based failure count, and _ComposableRetryPolicy.next "
+      "/ the stop conditions / _to_seconds are proved against their definitions.",
+      "Clock consistency between adapters (get_now vs time.time, DESIGN.md 7) and retry_info() are not under contract; "
+      "floats are mathematical reals.")
 
 claim("C10",
-      "Waiter resolution and waiter timeouts at the reducer: a waiter receives exactly an event of its exact type "
-      "whose requirements all match, non-matching waiters are untouched, a timeout acts only on an existing unresolved "
-      "waiter; every obligation discharged for all states/ticks except the recorded known finding (already-resolved "
-      "waiter is resolved again).",
-      "InternalContext.wait_for_event and serialization/rehydration of requirements are not under contract yet.",
+      "The three places a wait passes through are under contract: InternalContext.wait_for_event (which wait is "
+      "registered - id derived from the awaited type AND the requirements unless given -, with which payload, when "
+      "TimeoutError is raised, which event is handed out: exception payloads are part of the contract), the reducer "
+      "(_process_add_event_tick: exact type and every requirement must match, other waiters untouched; "
+      "_process_waiter_timeout_tick: only an existing unresolved waiter times out, once) and the snapshot functions "
+      "(waiters keep id, replay event, awaited type, delivered result and the requirements flag across "
+      "serialize/resume). Everything is discharged for all states except the recorded known finding (a second matching "
+      "event re-resolves an already resolved waiter: the step completes twice per wait).",
+      "Rehydration of requirements after a resume (rehydrate_with_ticks) and the step worker that turns WaitingForEvent "
+      "into an AddWaiter result are not under contract; un-rehydrated requirements matching any event (DESIGN.md 7, "
+      "C10 ii) is therefore not reported by this check.",
       category="other")
 
 claim("C31",
@@ -48,10 +57,13 @@ claim("C02",
       "Routing postcondition of _process_add_event_tick, for every state and event: per step exactly one of - woken "
       "through a matching waiter (event stored as the waiter's result, not delivered as input) / handed the event "
       "exactly once when its exact type is accepted and the optional target matches (one more attempt carrying the "
-      "tick's retry fields) / left untouched; UnhandledEvent is emitted exactly when nothing took the event and it is "
-      "not an InputRequiredEvent.",
-      "ctx.send_event's fire-and-forget task, the runner's command execution (CommandQueueEvent -> TickAddEvent) and "
-      "'each returned event yields one CommandQueueEvent' completeness are not under contract yet.")
+      "tick's retry fields) / left untouched; UnhandledEvent exactly when nothing took the event and it is not an "
+      "InputRequiredEvent. Every event a step returns becomes exactly one CommandQueueEvent (step result tick), and "
+      "_ControlLoopRunner.process_command turns a CommandQueueEvent into exactly one TickAddEvent - buffered at once "
+      "when there is no positive delay, otherwise one scheduled entry. wait_for_event registers waits under ids that "
+      "distinguish different requirements.",
+      "ctx.send_event's fire-and-forget task, the adapters' queues and the runner's main loop (that every buffered "
+      "tick is reduced once) are trusted.")
 
 claim("C03",
       "(a) work conservation (queued events only while all num_workers slots are busy) is an inductive invariant of "
